@@ -375,7 +375,8 @@ def check_C16(ctx, rep):
              'machine is returned on every path through the arm')
     rep.rule('C16.R2', 'the expiry branch of pick_next clears blocking_until of the expiring side and builds exactly one BlockingEnd at '
              'current_time + b (+ reporting delay); BlockingBegin is built only in do_scheduled_action and BlockingEnd only in pick_next; '
-             'pick_next consults the blocking expiry and the scheduled actions on every path')
+             'pick_next consults the blocking expiry and the scheduled actions on every path; peek_blocked_exp computes the expiry from the '
+             'slot of the side it reports and reports the side whose expiry is the earliest')
     rep.rule('C16.R3', 'when BlockingBegin is produced blocking_until of that side is definitely Some (typestate of the Option slot): on every '
              'path either the slot was just stored Some or it was tested to be Some')
     rep.rule('C16.R4', 'side consistency of the bypass decision in peek_queue: a state\'s blocking_bypassable is consulted only on paths where the '
@@ -486,6 +487,9 @@ def check_C16(ctx, rep):
     ends = [(site, evn, evf, flds) for (site, evn, evf, flds, ln) in sim_events(pa) if evn == 'BlockingEnd']
     rep.count_exact('C16.R2', 'BlockingEnd events built in pick_next', len(ends), 1)
     pick_next_consults(ctx, rep, 'C16.R2', 'peek_blocked_exp', 'a blocking expiry that is not looked at never reports BlockingEnd')
+    check_peek_blocked_exp(ctx, rep, 'C16.R2')
+    # a scheduled BlockOutgoing begins blocking only if the peek over the action slots finds it (shared with C17.R4)
+    peek_nonstrict(ctx, rep, 'C16.R2', 'peek_scheduled_action', 'action')
     pick_next_consults(ctx, rep, 'C16.R2', 'peek_scheduled_action', 'a scheduled BlockOutgoing that is not looked at never begins blocking')
     rsn = lambda pe, val: is_field(pe, 'blocking_until', 'SimState')
     ppf = an.paths(pn, history=True, record_stores=rsn, tag='until')
@@ -713,6 +717,15 @@ def peek_nonstrict(ctx, rep, rid, fname, what):
                 cs = callee_decl(f) or callee_str(f)
                 if cs.endswith('Iterator::min') or cs.endswith('Iterator::min_by') or cs.endswith('Iterator::min_by_key') or cs.endswith('Iterator::fold') or cs.endswith('Iterator::reduce'):
                     mins.append((sc, a))
+                    if cs.endswith('Iterator::min'):
+                        # `min()` orders by the item type's Ord: only an item that *is* a time is ordered by time (a slot type with
+                        # its own Ord impl, or Option<time> with None below every Some, is not)
+                        sa2 = an.get(sc)
+                        ty = sa2.fn.locals[sa2.blocks[b]['t']['d']['l']]['ty'] if not sa2.blocks[b]['t']['d']['pr'] else ''
+                        item = ty[len('core::option::Option<'):-1] if ty.startswith('core::option::Option<') and ty.endswith('>') else ty
+                        item = item.lstrip('&').replace("'_ ", '').strip()
+                        okt = item in ('core::time::Duration', 'std::time::Instant')
+                        rep.ob(rid, fn, 'minimum-ordered-by-time', okt, 'Iterator::min over items of type %s' % (item or '?'))
         rep.ob(rid, fn, 'minimum-taken', bool(mins), 'min/fold calls: %d' % len(mins))
         for (sc, a) in mins:
             recv = a[0]
@@ -773,6 +786,54 @@ def second_search_rule(ctx, rep, rid, ds, helpers):
         else:
             rep.ob(rid, ds, 'second-search-only-if-first-found-nothing', False, 'expected two search loops with a clearing site, found %d' % len(clear_loops))
 
+
+
+def check_peek_blocked_exp(ctx, rep, rid):
+    """peek_blocked_exp(client slot, server slot, now) -> (time to the earliest expiry, whose it is): on every result the duration is
+    computed from the slot of the side that is reported, and when both sides block the client is reported only if its expiry is the
+    earlier one (ties go to the server, as on the pinned tree, or to the client: both are the earliest)"""
+    prog, an = ctx.prog, ctx.an
+    fn = sim_fn(prog, 'peek_blocked_exp')
+    fa = an.get(fn)
+    rep.analysed(fn)
+    pf = an.paths(fn)
+    n = 0
+
+    def from_param(e, i):
+        return contains(e, lambda y: y == ('param', i))
+    for (b, k, v) in ret_defs(fa):
+        if not (isinstance(v, tuple) and v and v[0] == 'tuple' and len(v[2]) == 2):
+            rep.ob(rid, fn, 'peek_blocked_exp:result-is-a-pair-built-per-case', False, 'returns %s' % shape(v))
+            continue
+        d, side = v[2]
+        c = num(side)
+        if c is None:
+            rep.ob(rid, fn, 'peek_blocked_exp:side-decided-per-case', False, 'side = %s' % shape(side))
+            continue
+        n += 1
+        mine, other = (1, 2) if c else (2, 1)
+        none_case = isinstance(d, tuple) and d and d[0] == 'cdef' and d[1].endswith('::MAX')
+        okd = none_case or (from_param(d, mine) and not from_param(d, other) and from_param(d, 3))
+        rep.ob(rid, fn, 'peek_blocked_exp:duration-from-the-reported-side:%s' % ('client' if c else 'server'), okd, 'returns (%s, %s)' % (shape(d), bool(c)))
+        sts = pf.at(b, k) if k is not None else pf.at_entry(b)
+
+        def ok_case(S):
+            if none_case:
+                return all(any(f[0] == 'variant' and f[2] == 'None' and unload(f[1]) == ('param', i) for f in S) for i in (1, 2))
+            if any(f[0] == 'variant' and f[2] == 'None' and unload(f[1]) == ('param', other) for f in S):
+                return True
+            # both block: the reported side's expiry is not later than the other's
+            for f in S:
+                if f[0] == 'cmp' and f[1] in ('lt', 'le') and from_param(f[2], 1) and from_param(f[3], 2):
+                    if (c and f[5] is True) or (not c and f[5] is False):
+                        return True
+                if f[0] == 'cmp' and f[1] in ('lt', 'le') and from_param(f[2], 2) and from_param(f[3], 1):
+                    if (not c and f[5] is True) or (c and f[5] is False):
+                        return True
+            return False
+        ok, w = all_paths(sts, ok_case)
+        rep.ob(rid, fn, 'peek_blocked_exp:earliest-side-reported:%s' % ('client' if c else 'server'), ok and bool(sts), '' if ok else 'witness: ' + show_facts(w))
+    rep.count_floor(rid, 'result cases of peek_blocked_exp', n, 3)
 
 
 def pick_next_consults(ctx, rep, rid, source, what):
@@ -1528,6 +1589,15 @@ def check_C19(ctx, rep):
     rep.rule('C19.R6', 'totality of the queue hand-over: SimQueue::pop_blocking removes the event peek_blocking handed out (the `.unwrap()` on its '
              'result in sim_network_stack relies on it)')
     check_pop_blocking(ctx, rep, 'C19.R6')
+    rep.rule('C19.R7', 'a copy of the simulator\'s inputs and state is a faithful copy: every Clone impl of the simulator crate (SimQueue and its '
+             'event queues, SimEvent, ScheduledAction, the network model, SimulatorArgs ...) is the compiler-derived field-wise clone, so that '
+             'running a parsed queue and running its clone are the same simulation')
+    nclone = 0
+    for i in prog.impls:
+        if i['crate'] == SIM and i['trait'].endswith('clone::Clone'):
+            nclone += 1
+            rep.ob('C19.R7', i['self_ty'].split('<')[0].split('::')[-1], 'derived-clone', bool(i['derived']), 'Clone for %s is %s' % (i['self_ty'], 'derived' if i['derived'] else 'hand-written'))
+    rep.count_floor('C19.R7', 'Clone impls in the simulator crate', nclone, 8)
     return 'ambient-effect closure of the simulator, seed derivation, purity of the output filters, divisor casts, stop structure of the main loop and of pick_next'
 
 
